@@ -20,7 +20,8 @@ func init() {
 		Rule: "lists of length 0..8 (thorough 0..16) with unique elements x option (nil, FixedPool in {-1,0,1,len-1,len,len+3}) x RandomOrder; f logs begin, sleeps a data-dependent virtual duration " +
 			"(including 'later elements finish first'), yields, logs end; PMap's producer/worker/closer goroutines are simulated threads; oracles: ordered result == Map, random result is a permutation, " +
 			"f applied exactly once per element and to nothing else, concurrency gauge <= min(FixedPool,len), PMap returns after the last application and within the horizon; " +
-			"non-trivial = >=2 applications overlapped; distinct = distinct context-switch signature",
+			"non-trivial = >=2 applications overlapped; distinct = distinct context-switch signature" +
+			" Flavours: long lists with small pools and cheap f, further PMap calls (empty and non-empty, before and beside the main call) sharing the caller's option object.",
 		Real: []string{"fpgo.PMap (pMapPreserveOrder, pMapNoOrder: producer, workers, closer goroutines, WaitGroup)"},
 		Stub: []string{"goroutine scheduler", "clock", "the mapped function f"},
 	})
